@@ -677,6 +677,13 @@ def run(ctx):
     from . import c17 as _c17
     _c17.run(_c05._filtered(_c05._Sub(ctx, 'R06o'), ('P2', 'P4')))
 
+    # ---- R06t (C05 G8): an error that is to be recovered from has a position
+    ctx.rule('R06t', 'every parse error constructed in code reachable from parse_content is given a position that cannot be '
+                     'None: recovery places the reader and the partial nodes by that position, and an error without one is the '
+                     'only kind a tolerant parse might refuse to recover from (C05 G8)', 25)
+    from . import c05 as _c05t
+    _core.run_proxied(ctx, _c05t, 'R06t', ('G8',))
+
     # ---- R06s: a terminator is cut off only where it is there
     ctx.rule('R06s', 'parser code removes a terminator from the end (start) of what it read -- `X[:-len(T)]`, `X[len(T):]` -- only '
                      'under `X.endswith(T)` (`X.startswith(T)`): when the input ended before the terminator (the case tolerant '
